@@ -328,7 +328,7 @@ class Alarms:
         yield first # we trigger at the start
         repeat = alarm.REPEAT
         duration = alarm.DURATION
-        if repeat and duration:
+        if repeat and duration is not None:
             for i in range(1, repeat + 1):
                 yield self._add(first, duration * i)
 
